@@ -92,7 +92,7 @@ func kindOfU64(p *Program, e *evaluator, v ssa.Value, depth int) u64Kind {
 }
 
 func checkC19(p *Program, r *Report) {
-	r.Explanation = "Decided clauses: (kinds) on the rendering path no list of label paths is ever passed where bitmap words are expected, every function that returns a (bitmap, size) pair returns bitmap words on all of its returns together with the size those words were cut with (to-from for a slice of the label bitmap, the 17-bit node size for a table entry), and each bmtree.Decode(size, bm) receives the size returned with its bitmap — the defect class that made String() panic on tries with table-compressed short nodes; (order) labels are rendered through a slice that is sorted before use (map iteration order cannot leak); (empty) String on an empty trie returns before touching the node-type bitmap."
+	r.Explanation = "Decided clauses: (kinds) on the rendering path no list of label paths is ever passed where bitmap words are expected, every function that returns a (bitmap, size) pair returns bitmap words on all of its returns together with the size those words were cut with (to-from for a slice of the label bitmap, the 17-bit node size for a table entry), and each bmtree.Decode(size, bm) receives the size returned with its bitmap — the defect class that made String() panic on tries with table-compressed short nodes; (order) labels are rendered through a slice that is sorted before use (map iteration order cannot leak); (empty) String on an empty trie returns before touching the node-type bitmap. (session-valid) the label decoder reads conditionally assigned session fields only under their validity discriminator (shared with C10): the renderer decodes every node into one reused session."
 	r.NotCovered = "Everything else in the rendering: that each node is shown once, child ids, the tree layout produced by openacid/low/tree."
 	r.Trusted = []string{"go/ssa", "openacid/low bmtree/bitmap API contracts (words vs paths)"}
 	str := p.Method(p.Trie, "SlimTrie", "String")
